@@ -23,6 +23,8 @@ func (cfp *CachedFP) GetFP(fileName string) (fp *os.File, err error) {
 	}
 	cfp.fp, err = os.OpenFile(fileName, os.O_RDWR, ownerAllPerm)
 	if err != nil {
+		// nothing is cached any more (the previous file has been closed above)
+		cfp.fp, cfp.fileName = nil, ""
 		return nil, fmt.Errorf("open cached filepath: %w", err)
 	}
 	cfp.fileName = fileName
